@@ -58,6 +58,9 @@ def run(tape, ctx: Ctx) -> None:
             if tape.chance(w, w + 1, f"enable-{kind}"):
                 kinds[kind] = 1
                 ctx.fault_configured(kind)
+        if kinds.get("unary-5xx") and tape.chance(1, 3, "enable-unary-5xx-after"):
+            kinds["unary-5xx-after"] = 1      # some 5xx replies come after the server did the work
+            ctx.fault_configured("unary-5xx-after-processing")
     timeout_s = [600, 30, 5][tape.weighted([4, 2, 1], "timeout")]
     max_retry = [3600, 1, 10][tape.weighted([4, 1, 1], "max-retry-delay")]
     reps = 1 + tape.draw(3, "reps")
@@ -301,11 +304,18 @@ def _oracle(ctx, server, jobs, failing, outcomes, n_jobs, reps, elapsed, timeout
             cls = f"{P}-L2-UNJUSTIFIED-ERROR"
             if id(e) in injected_breaks or isinstance(e, sm.StreamError) or id(e) in injected_unary:
                 cls = f"{P}-RETRYABLE-SURFACED"
+            fp = None
+            status = getattr(getattr(e, "__cause__", None), "code", None) or getattr(e, "code", None)
+            if (cls.endswith("UNJUSTIFIED-ERROR") and "already exists" in str(e)
+                    and any(nm.startswith("create_") for (nm, _t) in server.processed_then_failed)):
+                # a create whose 5xx reply came *after* the server had done the work was re-sent as is
+                fp = f"{P}-L2-UNJUSTIFIED-ERROR:create-resent-after-lost-reply"
+            _ = status
             raise Violation(cls, f"{job_id}: the caller of results_async got {type(e).__name__}: {e} "
                                  f"(virtual time elapsed {elapsed:.1f}s, timeout {timeout_s}s, injected breaks "
                                  f"{sorted(injected_breaks.values())}, injected unary failures "
                                  f"{[type(x).__name__ for x in server.injected_unary]}, unary log tail "
-                                 f"{server.unary_log[-6:]})")
+                                 f"{server.unary_log[-6:]})", fingerprint=fp)
         ctx.probe("l2:error:" + why)
         if why == "job-cancelled":
             ctx.probe("l2:cancelled-job-surfaces")
